@@ -131,6 +131,30 @@ Definition callable (o : obj) : bool :=
 (* type(a) is type(b) and a == b : KnownValue.__eq__ *)
 Definition same_literal (a b : obj) : bool := N.eqb (class_of a) (class_of b) && py_eq a b.
 
+(* KnownValue.__eq__ after repo_fixes/C14-known-value-eq-nested-types.diff: the same type and
+   equal, where the elements of tuples and frozensets are compared in the same way recursively
+   ((1, True) and (1, 1) are different literals; lists / sets / dicts inside are compared by ==) *)
+Fixpoint lit_key_eq (a b : obj) {struct a} : bool :=
+  match a, b with
+  | OTuple _ l1, OTuple _ l2 =>
+      (fix go (l1 l2 : list obj) {struct l1} : bool :=
+         match l1, l2 with
+         | [], [] => true
+         | x :: l1', y :: l2' => lit_key_eq x y && go l1' l2'
+         | _, _ => false
+         end) l1 l2
+  | OFrozenset l1, OFrozenset l2 =>
+      (fix incl (l1 : list obj) : bool :=
+         match l1 with
+         | [] => true
+         | x :: l1' => (fix has (l2 : list obj) : bool :=
+                          match l2 with [] => false | y :: l2' => lit_key_eq x y || has l2' end) l2 && incl l1'
+         end) l1
+      && forallb (fun y => (fix has (l1 : list obj) : bool :=
+                              match l1 with [] => false | x :: l1' => lit_key_eq x y || has l1' end) l1) l2
+  | _, _ => N.eqb (class_of a) (class_of b) && py_eq a b
+  end.
+
 (* hash(KnownValue(a)) == hash(KnownValue(b)), ideal hashing (no accidental
    collisions): hash((type, val)) when val is hashable, hash((type, id(val))) otherwise *)
 Definition literal_heq (a b : obj) : bool :=
